@@ -11,9 +11,6 @@ package main
 
 import (
 	"fmt"
-	"go/ast"
-	"go/constant"
-	"go/token"
 	"go/types"
 	"strings"
 )
@@ -46,371 +43,6 @@ type wframe struct {
 	vars map[types.Object]interface{} // []wtok | wref | int
 	ret  []wtok
 	done bool
-}
-
-func (it *wktInterp) fail(format string, a ...interface{}) {
-	if it.undec == "" {
-		it.undec = fmt.Sprintf(format, a...)
-	}
-}
-
-func (it *wktInterp) call(fn *types.Func, args []interface{}, depth int) []wtok {
-	fd := it.c.P.Decl(fn)
-	if fd == nil || depth > 8 {
-		it.fail("cannot follow %s", fn.Name())
-		return nil
-	}
-	fr := &wframe{it: it, vars: map[types.Object]interface{}{}}
-	ps := paramVars(it.info, fd.Type)
-	if len(ps) != len(args) {
-		it.fail("arity mismatch calling %s", fn.Name())
-		return nil
-	}
-	for i, p := range ps {
-		if p != nil {
-			fr.vars[p] = args[i]
-		}
-	}
-	fr.block(fd.Body.List, depth)
-	if !fr.done {
-		it.fail("%s does not return its buffer on every path", fn.Name())
-	}
-	return fr.ret
-}
-
-func (fr *wframe) block(list []ast.Stmt, depth int) {
-	for _, st := range list {
-		if fr.done || fr.it.undec != "" {
-			return
-		}
-		fr.stmt(st, depth)
-	}
-}
-
-func (fr *wframe) intVal(e ast.Expr) (int, bool) {
-	e = unparen(e)
-	if k, ok := constInt(fr.it.info, e); ok {
-		return int(k), true
-	}
-	switch x := e.(type) {
-	case *ast.Ident:
-		if o := objOf(fr.it.info, x); o != nil {
-			if v, ok := fr.vars[o].(int); ok {
-				return v, true
-			}
-		}
-	case *ast.CallExpr:
-		if la := lenArg(fr.it.info, x); la != nil {
-			if r, ok := fr.ref(la); ok {
-				if r.depth < len(fr.it.counts) {
-					return fr.it.counts[r.depth], true
-				}
-			}
-		}
-	case *ast.BinaryExpr:
-		l, ok1 := fr.intVal(x.X)
-		r, ok2 := fr.intVal(x.Y)
-		if ok1 && ok2 {
-			switch x.Op {
-			case token.ADD:
-				return l + r, true
-			case token.SUB:
-				return l - r, true
-			}
-		}
-	}
-	return 0, false
-}
-
-func (fr *wframe) boolVal(e ast.Expr) (bool, bool) {
-	e = unparen(e)
-	switch x := e.(type) {
-	case *ast.UnaryExpr:
-		if x.Op == token.NOT {
-			v, ok := fr.boolVal(x.X)
-			return !v, ok
-		}
-	case *ast.BinaryExpr:
-		switch x.Op {
-		case token.LAND, token.LOR:
-			l, ok1 := fr.boolVal(x.X)
-			r, ok2 := fr.boolVal(x.Y)
-			if ok1 && ok2 {
-				if x.Op == token.LAND {
-					return l && r, true
-				}
-				return l || r, true
-			}
-			return false, false
-		}
-		l, ok1 := fr.intVal(x.X)
-		r, ok2 := fr.intVal(x.Y)
-		if !ok1 || !ok2 {
-			return false, false
-		}
-		switch x.Op {
-		case token.EQL:
-			return l == r, true
-		case token.NEQ:
-			return l != r, true
-		case token.LSS:
-			return l < r, true
-		case token.LEQ:
-			return l <= r, true
-		case token.GTR:
-			return l > r, true
-		case token.GEQ:
-			return l >= r, true
-		}
-	}
-	return false, false
-}
-
-// ref resolves an expression to a data reference.
-func (fr *wframe) ref(e ast.Expr) (wref, bool) {
-	e = unparen(e)
-	switch x := e.(type) {
-	case *ast.Ident:
-		if o := objOf(fr.it.info, x); o != nil {
-			if r, ok := fr.vars[o].(wref); ok {
-				return r, true
-			}
-		}
-	case *ast.UnaryExpr:
-		if x.Op == token.AND {
-			return fr.ref(x.X)
-		}
-	case *ast.StarExpr:
-		return fr.ref(x.X)
-	case *ast.IndexExpr:
-		if r, ok := fr.ref(x.X); ok {
-			if i, ok := fr.intVal(x.Index); ok {
-				return wref{path: fmt.Sprintf("%s[%d]", r.path, i), depth: r.depth + 1}, true
-			}
-		}
-	case *ast.CallExpr:
-		// conversion
-		if tv, ok := fr.it.info.Types[x.Fun]; ok && tv.IsType() && len(x.Args) == 1 {
-			return fr.ref(x.Args[0])
-		}
-	case *ast.TypeAssertExpr:
-		return fr.ref(x.X)
-	}
-	return wref{}, false
-}
-
-// buf evaluates an expression producing the byte buffer.
-func (fr *wframe) buf(e ast.Expr, depth int) ([]wtok, bool) {
-	e = unparen(e)
-	if isNilConst(fr.it.info, e) {
-		return nil, true
-	}
-	switch x := e.(type) {
-	case *ast.Ident:
-		if o := objOf(fr.it.info, x); o != nil {
-			if b, ok := fr.vars[o].([]wtok); ok {
-				return b, true
-			}
-			if _, isSet := fr.vars[o]; !isSet {
-				return nil, false
-			}
-		}
-	case *ast.CallExpr:
-		info := fr.it.info
-		if builtinName(info, x) == "append" && len(x.Args) >= 2 {
-			base, ok := fr.buf(x.Args[0], depth)
-			if !ok {
-				return nil, false
-			}
-			out := append([]wtok(nil), base...)
-			if x.Ellipsis.IsValid() && len(x.Args) == 2 {
-				// append(dst, []byte("LIT")...) or append(dst, "LIT"...)
-				arg := unparen(x.Args[1])
-				if cv, ok := arg.(*ast.CallExpr); ok && len(cv.Args) == 1 {
-					arg = unparen(cv.Args[0])
-				}
-				if s, ok := constString(info, arg); ok {
-					for i := 0; i < len(s); i++ {
-						out = append(out, wtok{lit: s[i]})
-					}
-					return out, true
-				}
-				return nil, false
-			}
-			for _, a := range x.Args[1:] {
-				v := constOf(info, a)
-				if v == nil {
-					return nil, false
-				}
-				v = constant.ToInt(v)
-				k, ok := constant.Int64Val(v)
-				if !ok || k < 0 || k > 127 {
-					return nil, false
-				}
-				out = append(out, wtok{lit: byte(k)})
-			}
-			return out, true
-		}
-		f := callee(info, x)
-		if f == nil {
-			return nil, false
-		}
-		if (isFuncIn(f, "strconv", "AppendFloat")) && len(x.Args) == 5 {
-			base, ok := fr.buf(x.Args[0], depth)
-			if !ok {
-				return nil, false
-			}
-			sel, ok := unparen(x.Args[1]).(*ast.SelectorExpr)
-			if !ok {
-				return nil, false
-			}
-			r, ok := fr.ref(sel.X)
-			if !ok {
-				return nil, false
-			}
-			return append(append([]wtok(nil), base...), wtok{num: sel.Sel.Name + "@" + r.path}), true
-		}
-		if fr.it.c.P.Decl(f) != nil && len(x.Args) >= 1 {
-			var args []interface{}
-			for i, a := range x.Args {
-				if i == 0 {
-					b, ok := fr.buf(a, depth)
-					if !ok {
-						return nil, false
-					}
-					args = append(args, b)
-					continue
-				}
-				if r, ok := fr.ref(a); ok {
-					args = append(args, r)
-				} else if k, ok := fr.intVal(a); ok {
-					args = append(args, k)
-				} else {
-					return nil, false
-				}
-			}
-			out := fr.it.call(f, args, depth+1)
-			return out, fr.it.undec == ""
-		}
-	}
-	return nil, false
-}
-
-func (fr *wframe) stmt(st ast.Stmt, depth int) {
-	it := fr.it
-	it.steps++
-	switch s := st.(type) {
-	case *ast.AssignStmt:
-		if len(s.Lhs) != 1 || len(s.Rhs) != 1 || (s.Tok != token.ASSIGN && s.Tok != token.DEFINE) {
-			it.fail("statement `%s` not understood", src(s))
-			return
-		}
-		o := objOf(it.info, s.Lhs[0])
-		if o == nil {
-			it.fail("assignment target `%s` not understood", src(s.Lhs[0]))
-			return
-		}
-		if b, ok := fr.buf(s.Rhs[0], depth); ok {
-			fr.vars[o] = b
-			return
-		}
-		if it.undec != "" {
-			return
-		}
-		if r, ok := fr.ref(s.Rhs[0]); ok {
-			fr.vars[o] = r
-			return
-		}
-		if k, ok := fr.intVal(s.Rhs[0]); ok {
-			fr.vars[o] = k
-			return
-		}
-		it.fail("value `%s` not understood", src(s.Rhs[0]))
-	case *ast.ReturnStmt:
-		if len(s.Results) != 1 {
-			it.fail("unexpected return arity")
-			return
-		}
-		b, ok := fr.buf(s.Results[0], depth)
-		if !ok {
-			it.fail("returned value `%s` is not the buffer", src(s.Results[0]))
-			return
-		}
-		fr.ret, fr.done = b, true
-	case *ast.IfStmt:
-		if s.Init != nil {
-			fr.stmt(s.Init, depth)
-		}
-		v, ok := fr.boolVal(s.Cond)
-		if !ok {
-			it.fail("condition `%s` is not a predicate on the member index", src(s.Cond))
-			return
-		}
-		if v {
-			fr.block(s.Body.List, depth)
-		} else if s.Else != nil {
-			switch e := s.Else.(type) {
-			case *ast.BlockStmt:
-				fr.block(e.List, depth)
-			case *ast.IfStmt:
-				fr.stmt(e, depth)
-			}
-		}
-	case *ast.RangeStmt:
-		r, ok := fr.ref(s.X)
-		if !ok || r.depth >= len(it.counts) {
-			it.fail("range over `%s` is not over the geometry's members", src(s.X))
-			return
-		}
-		n := it.counts[r.depth]
-		for i := 0; i < n && !fr.done && it.undec == ""; i++ {
-			if s.Key != nil {
-				if o := objOf(it.info, s.Key); o != nil {
-					fr.vars[o] = i
-				}
-			}
-			if s.Value != nil {
-				if o := objOf(it.info, s.Value); o != nil {
-					fr.vars[o] = wref{path: fmt.Sprintf("%s[%d]", r.path, i), depth: r.depth + 1}
-				}
-			}
-			fr.block(s.Body.List, depth)
-		}
-	case *ast.ForStmt:
-		if s.Init != nil {
-			fr.stmt(s.Init, depth)
-		}
-		for iter := 0; iter < 16 && !fr.done && it.undec == ""; iter++ {
-			v, ok := fr.boolVal(s.Cond)
-			if !ok {
-				it.fail("loop condition `%s` not understood", src(s.Cond))
-				return
-			}
-			if !v {
-				return
-			}
-			fr.block(s.Body.List, depth)
-			if post, ok := s.Post.(*ast.IncDecStmt); ok {
-				if o := objOf(it.info, post.X); o != nil {
-					if k, ok := fr.vars[o].(int); ok {
-						if post.Tok == token.INC {
-							fr.vars[o] = k + 1
-						} else {
-							fr.vars[o] = k - 1
-						}
-						continue
-					}
-				}
-			}
-			it.fail("loop post statement not understood")
-			return
-		}
-	case *ast.DeclStmt, *ast.EmptyStmt:
-	case *ast.BlockStmt:
-		fr.block(s.List, depth)
-	default:
-		it.fail("statement `%s` not understood", src(st))
-	}
 }
 
 // ---------------------------------------------------------------- recogniser
